@@ -33,6 +33,12 @@ func Indent(buf *bytes.Buffer, src []byte, prefix, indentStr string) error {
 	dstCtx.Buf = dst
 	ReleaseRuntimeContext(srcCtx)
 	ReleaseRuntimeContext(dstCtx)
+	// trailing space characters of src are preserved (see the documentation of Indent)
+	end := len(src)
+	for end > 0 && isWhiteSpace[src[end-1]] {
+		end--
+	}
+	buf.Write(src[end:])
 	return nil
 }
 
